@@ -9,6 +9,7 @@ CONSTANTS
 INVARIANT TypeOK
 INVARIANT RefPartial
 INVARIANT ImplAgrees
+INVARIANT DeviationsExplained
 INVARIANT NoMatchMultiDead
 INVARIANT StepsAreImplCall
 INVARIANT PublishReplay
